@@ -61,6 +61,11 @@ func firstAppended(p *core.Path, buf *core.Term, upTo int) *core.Term {
 	return nil
 }
 
+// madeBuffer: make([]byte, n[, cap]) as go/ssa shows it (a make term, or a slice of a fresh array).
+func madeBuffer(t *core.Term) bool {
+	return t.Kind == core.KMake || (t.Kind == core.KSlice && t.Args[0].Kind == core.KAlloc && t.Args[1].Kind == core.KNone)
+}
+
 func (t *transport) opcodeAgrees() {
 	c, r := t.c, t.c.R
 	closeCmp := func(p *core.Path, from int) *core.Term { // term compared with CloseMessage after literal index from
@@ -94,8 +99,11 @@ func (t *transport) opcodeAgrees() {
 				}
 				seen++
 				// direct write of a locally built buffer: byte 0 must carry x
-				if direct, _ := t.writeEvent(ev); direct && len(ev.Args) == 1 && ev.Args[0].Kind == core.KAppend {
+				if direct, _ := t.writeEvent(ev); direct && len(ev.Args) == 1 && (ev.Args[0].Kind == core.KAppend || madeBuffer(ev.Args[0])) {
 					b0 := firstAppended(p, ev.Args[0], i)
+					if madeBuffer(ev.Args[0]) { // built by indexed stores
+						b0 = storedAt(p, ev.Args[0], p.X.T.Int(0), i)
+					}
 					if b0 == nil || opcodeLeaf(b0) != x {
 						ok, why = false, "the value compared with CloseMessage after the write is not the opcode stored in byte 0 of the written buffer"
 					} else if why == "" {
